@@ -119,6 +119,7 @@ CMP = {"lt": "lt", "le": "le", "gt": "gt", "ge": "ge", "eq": "eq", "ne": "ne"}
 FLIP = {"lt": "ge", "ge": "lt", "gt": "le", "le": "gt", "eq": "ne", "ne": "eq"}
 
 U128 = "cosmwasm_std::Uint128"
+FN_TRAITS = ("std::ops::FnOnce", "std::ops::FnMut", "std::ops::Fn")
 # pure library functions: equal arguments give equal results wherever they are called
 PURE_LIB = {
     "cosmwasm_std::Timestamp::seconds": "ts.seconds", "cosmwasm_std::Timestamp::plus_seconds": "ts.plus_seconds",
@@ -412,7 +413,19 @@ class _Run:
             if k == "array":
                 return mk("array", (), tuple(vals))
             if k == "closure":
-                return mk("closure", (rv["closure"],), tuple(vals))
+                # captured values are snapshotted (a by-reference capture cannot change while the closure is alive);
+                # a place captured by `&mut` may be changed by whoever calls the closure
+                snap = []
+                for i, v0 in enumerate(vals):
+                    if tag(v0) == "ref":
+                        r_, p_, m_ = payload(v0)
+                        cur = self.deref_val(st, v0)
+                        snap.append(cur)
+                        if m_:
+                            self.write(st, r_, list(p_), mk("capturedmut", (rv["closure"], i), (cur,)))
+                    else:
+                        snap.append(v0)
+                return mk("closure", (rv["closure"],), tuple(snap))
             return mk("aggother", (k,), tuple(vals))
         if "discr" in rv:
             x = self.deref_val(st, self.read_place(st, rv["discr"]))
@@ -748,6 +761,29 @@ class _Run:
                 target_fn = self.world.fns.get(callee["res_key"])
                 if target_fn is not None:
                     name = target_fn.pretty
+            if target_fn is None and callee.get("trait") in FN_TRAITS and callee["name"] in ("call_once", "call_mut", "call") and len(args) == 2:
+                # calling a closure value: a closure built in this body, or a closure-typed parameter this body was specialised on
+                ctarget = self.closure_target(args[0])
+                if ctarget is not None:
+                    target_fn = ctarget
+                    name = target_fn.pretty
+                    n_in = target_fn.arg_count - 1
+                    tv, tr = args[1], raw[1]
+                    rest_r = list(kids(tr)) if tag(tr) == "tuple" and len(kids(tr)) == n_in else [sym.field(tr, str(i)) for i in range(n_in)]
+                    raw = [raw[0]] + rest_r
+                    args = [args[0]] + [self.deref_val(st, a) for a in rest_r]
+                    t = dict(t)
+                    t["args"] = [{"const": {"ty": target_fn.locals[i + 1]["ty"]}} for i in range(target_fn.arg_count)]
+            if target_fn is not None and target_fn.kind != "Closure":
+                cmap = {}
+                for i, a in enumerate(args):
+                    if i < target_fn.arg_count and tag(a) == "closure":
+                        cmap[i] = payload(a)[0]
+                    elif i < target_fn.arg_count and tag(a) == "param" and payload(a)[0] == fn.key and payload(a)[1] in getattr(fn, "closure_args", {}):
+                        cmap[i] = fn.closure_args[payload(a)[1]]
+                if cmap:
+                    target_fn = self.world.specialise(target_fn, cmap)
+                    name = target_fn.pretty
             result = self.model(st, callee, name, args, raw, site, occ, target_fn, t)
         ev = Event(fn, bb, t["line"], callee, name, args, raw, result, target_fn, self_ty)
         ev.idx = len(st.events)
@@ -757,11 +793,26 @@ class _Run:
         self.write(st, root, path, result)
         return t["target"]
 
+    def closure_target(self, f):
+        if tag(f) == "closure":
+            return self.world.by_pretty.get(payload(f)[0])
+        if tag(f) == "param" and payload(f)[0] == self.fn.key:
+            c = getattr(self.fn, "closure_args", {}).get(payload(f)[1])
+            if c is not None:
+                return self.world.by_pretty.get(c)
+        return None
+
     def havoc(self, st, t, raw, result, skip=()):
         for i, (o, rv) in enumerate(zip(t["args"], raw)):
             if i in skip:
                 continue
             ty = self.operand_ty(o)
+            if tag(rv) == "tuple":
+                for x in kids(rv):
+                    if tag(x) == "ref" and payload(x)[2]:
+                        r, p, _m = payload(x)
+                        old = self.read(st, r, list(p))
+                        self.write(st, r, list(p), mk("mutby", (i,), (result, old)))
             if tag(rv) == "ref":
                 r, p, m = payload(rv)
                 if m:
